@@ -16,6 +16,23 @@ def static_inventory(ctx):
     return sorted("%s:%s:%s#%s" % (e["file"], e["func"], e["expr"], e["hash"]) for e in map(json.loads, p.stdout.splitlines()))
 
 
+def json_docs(rnd):
+    """(tag, JSON text) - an object with k keys (not in sorted order) placed at a position described by a path of 'o' (value of an
+    object member) and 'a' (item of an array)"""
+    out = []
+    def obj(k, salt):
+        names = ["k%d%s" % ((i * 5 + salt) % 11, "abcdefgh"[(i * 3) % 8]) for i in range(k)]
+        return "{" + ",".join('"%s":%d' % (n, i) for i, n in enumerate(names)) + "}"
+    for path in ("", "o", "a", "aa", "oa", "ao", "oao", "aoa", "aaa", "ooa"):
+        for k in (2, 3, 5, 8):
+            d = obj(k, len(path))
+            for st in reversed(path):
+                d = ('{"p":1,"m":%s,"c":2}' % d) if st == "o" else ('[1,%s,%s]' % (d, obj(2, 7)))
+            if not d.startswith("{"): d = '{"r":%s}' % d        # 解析JSON wants an object at the top
+            out.append(("%s/%d" % (path or "top", k), d))
+    return out
+
+
 def run(ctx):
     znh = common.build_harness(ctx)
     rnd = random.Random(ctx.seed)
@@ -47,7 +64,7 @@ def run(ctx):
         cases.append(dict(id=len(cases), src=src, n=N)); meta.append(("dicteq", v))
     # ---- (4) other order-sensitive-looking programs: JSON parse order, object defaults, nested dict display
     others = [
-        ("json-parse-order", "导入《@JSON》\n令甲 = （解析JSON：“{`”`z`”`:1,`”`y`”`:2,`”`x`”`:3,`”`w`”`:4,`”`v`”`:[{`”`b`”`:1,`”`a`”`:2}]}”）\n（显示：甲、甲之所有索引）\n以键、值遍历甲：\n    （显示：键）\n（生成JSON：甲）\n".replace("`”`", '`"`')),
+        ("json-parse-order", "导入《@JSON》\n令甲 = （解析JSON：“{\"z\":1,\"y\":2,\"x\":3,\"w\":4,\"v\":[{\"b\":1,\"a\":2}]}”）\n（显示：甲、甲之所有索引）\n以键、值遍历甲：\n    （显示：键）\n（生成JSON：甲）\n"),
         ("object-defaults", "定义箱：\n    其长 = 1\n    其宽 = 【1，2】\n    其高 = 【“a” = 1】\n    其重 = “w”\n令甲 = （新建箱）\n（显示：甲之长、甲之宽、甲之高、甲之重）\n0\n"),
         ("dict-of-dicts", "令甲 = 【“p” = 【“b” = 1，“a” = 2】，“o” = 【“d” = 3，“c” = 【4】】】\n（显示：甲、甲之所有值、甲 为 甲）\n0\n"),
         ("error-message", "令甲 = 【“a” = 1，“b” = 2】\n甲#“zz”\n"),
@@ -65,6 +82,10 @@ def run(ctx):
         d2 = "【" + "，".join("“%s” = %s" % (k, v) for k, v in zip("cab", vals2.split("，"))) + "】"
         for op in ("（显示：甲 为 乙）", "（显示：甲 == 乙）", "（显示：以【乙】（包含：甲））", "（显示：以【1，乙】（寻找：甲））", "（显示：以【【乙】】（包含：【甲】））"):
             others.append(("uncomparable-in-dict", unc + "令甲 = %s\n令乙 = %s\n%s\n0\n" % (d1, d2, op)))
+    # JSON documents with an object at every kind of position (top, in an object, in an array, in an array in an array, in an
+    # object in an array, in an array in an object in an array ...), 2..8 keys each: parsed, then observed in every way
+    for tag_, doc in json_docs(rnd):
+        others.append(("json-shape:" + tag_, "导入《@JSON》\n令甲 = （解析JSON：“%s”）\n（显示：甲、（生成JSON：甲））\n0\n" % doc))
     others.append(("library-imported-twice", "导入《@JSON》\n导入《@文件》\n导入《@JSON》\n导入《@文件》\n（显示：（生成JSON：【“a” = 1】））\n0\n"))
     others.append(("library-imported-twice-then-error", "导入《@JSON》\n导入《@JSON》\n（解析JSON：“{”）\n"))
     for tag, src in others:
@@ -81,6 +102,8 @@ def run(ctx):
             common.report(ctx, "%s:nondeterministic" % tag, "%d distinct outcomes in %d runs of the same program (counts %s)" % (r["distinct"], cases[r["id"]]["n"], r["counts"]),
                           dict(source=src, outcomes=r["records"][:3]))
             continue
+        if (tag.startswith("json-shape") or tag in ("json-parse-order", "object-defaults", "dict-of-dicts", "literal-repeated-key")) and r["records"][0]["obs"] != "value":
+            raise common.NoVerdict("program '%s' of the repetition family does not run: %s" % (tag, r["records"][0].get("msg")))
         if tag == "dicteq":
             rec = r["records"][0]
             if rec["obs"] != "value" or len(rec["display"]) != 1:
@@ -110,6 +133,10 @@ def run(ctx):
             target = "http://example.com/p?" + "&".join("%s=%d" % (n, i) for i, n in enumerate(ns) if n.isascii())
             headers = [[n if n.isascii() else "X-" + str(i), "v%d" % i] for i, n in enumerate(ns)]
             hcases.append(dict(id=len(hcases), target=target, headers=headers, src=echo, n=N * 2))
+    bodyecho = "输入当前请求\n输出【“b” = 当前请求之内容】\n"
+    for tag_, doc in json_docs(rnd):
+        if tag_.endswith(("/3", "/8")):
+            hcases.append(dict(id=len(hcases), target="http://example.com/p", headers=[], src=bodyecho, n=N * 2, body=doc))
     hres = common.run_harness(ctx, znh, "httprepeat", hcases, timeout=900)
     for r in hres:
         c = hcases[r["id"]]
